@@ -24,7 +24,12 @@ type c09 struct {
 	pkgPath string
 	T       *types.Named
 	tkey    string
-	st      *types.Struct
+	// state types: the limiter struct and the same-package structs its state is
+	// grouped into (fields held by value, by pointer or embedded, recursively);
+	// maps the type key to the prefix of its field keys ("" for the limiter itself)
+	stateTypes map[string]string
+	flds       []c09Fld
+	st         *types.Struct
 
 	run, add, closeFn, ctor *ssa.Function
 	fns                     []*ssa.Function
@@ -42,21 +47,256 @@ type c09 struct {
 	roleNote []string
 }
 
+// c09Fld is one field of the limiter state. key is the field name for the
+// limiter's own fields and "SubType.name" for fields of a grouped sub-struct.
+type c09Fld struct {
+	key, owner, name string
+	typ              types.Type
+}
+
+func (k *c09) fld(key string) *c09Fld {
+	for i := range k.flds {
+		if k.flds[i].key == key {
+			return &k.flds[i]
+		}
+	}
+	return nil
+}
+
+// fieldID / lockKey: the type-based identities the shared engines use.
+func (k *c09) fieldID(key string) FieldID {
+	if f := k.fld(key); f != nil {
+		return FieldID{f.owner, f.name}
+	}
+	return FieldID{k.tkey, key}
+}
+
+func (k *c09) lockKey(key string) string {
+	id := k.fieldID(key)
+	return id.Type + "." + id.Field
+}
+
+// collectState flattens the limiter struct.
+func (k *c09) collectState() {
+	k.stateTypes = map[string]string{k.tkey: ""}
+	var visit func(st *types.Struct, owner, prefix string, depth int)
+	visit = func(st *types.Struct, owner, prefix string, depth int) {
+		for i := 0; i < st.NumFields(); i++ {
+			f := st.Field(i)
+			t := f.Type()
+			if n, ok := deref(t).(*types.Named); ok && depth < 3 {
+				if sub, isStruct := n.Underlying().(*types.Struct); isStruct && n.Obj().Pkg() != nil && n.Obj().Pkg().Path() == k.pkgPath {
+					key := namedKey(n)
+					if _, seen := k.stateTypes[key]; !seen {
+						k.stateTypes[key] = n.Obj().Name() + "."
+						visit(sub, key, n.Obj().Name()+".", depth+1)
+					}
+					continue
+				}
+			}
+			k.flds = append(k.flds, c09Fld{key: prefix + f.Name(), owner: owner, name: f.Name(), typ: t})
+		}
+	}
+	visit(k.st, k.tkey, "", 0)
+}
+
 func (k *c09) fname(fn *ssa.Function) string { return FuncName(k.p, fn) }
+
+// flow: a PathFlow configured for this package (no rule callbacks yet).
+func (k *c09) flow() *PathFlow {
+	return &PathFlow{Follow: k.follow, Facts: k.fc, Funcs: k.fns, RootsOf: k.rootsOf}
+}
+
+func (k *c09) rootsOf(pf *PathFlow, v ssa.Value) []ssa.Value { return pf.Roots(k.rc, v) }
 
 func (k *c09) follow(fn *ssa.Function) bool { return k.inFns[fn] && !k.ctorOnly[fn] }
 
 // tField: v is &x.f with x of the limiter type; returns f.
-func (k *c09) addrField(v ssa.Value) (string, bool) {
+func (k *c09) addrField(v ssa.Value) (string, bool) { return k.addrFieldX(v, false) }
+
+// addrFieldR is addrField for READS: a field of a local COPY of a state
+// struct (next := *w; next.f) reads what the state held when it was copied.
+func (k *c09) addrFieldR(v ssa.Value) (string, bool) { return k.addrFieldX(v, true) }
+
+// c09StateCopy: local is a local struct variable initialised by copying a
+// struct value that is not itself a local literal (i.e. the state).
+func c09StateCopy(local *ssa.Alloc) bool {
+	for _, r := range refs(local) {
+		if st, ok := r.(*ssa.Store); ok && st.Addr == ssa.Value(local) {
+			if u, ok := st.Val.(*ssa.UnOp); ok && u.Op == token.MUL {
+				if _, isLocal := u.X.(*ssa.Alloc); !isLocal {
+					return true
+				}
+			}
+		}
+	}
+	return false
+}
+
+func (k *c09) addrFieldX(v ssa.Value, allowCopy bool) (string, bool) {
 	fa, ok := v.(*ssa.FieldAddr)
 	if !ok {
 		return "", false
 	}
 	id := fieldIDOfAddr(fa)
-	if id.Type != k.tkey {
+	prefix, ok := k.stateTypes[id.Type]
+	if !ok {
 		return "", false
 	}
-	return id.Field, true
+	// a field of a local struct value (a composite literal being built, a copy) is not the state
+	if a, isAlloc := fa.X.(*ssa.Alloc); isAlloc && !a.Heap && !(allowCopy && c09StateCopy(a)) {
+		return "", false
+	}
+	if k.fld(prefix+id.Field) == nil {
+		return "", false // the container field of a grouped sub-struct, not a leaf of the state
+	}
+	return prefix + id.Field, true
+}
+
+// c09Store is one field of the state being assigned.
+type c09Store struct {
+	field string
+	val   ssa.Value // nil when zero
+	zero  bool
+	multi bool // one of several possible values (a struct value assembled on several paths/steps)
+}
+
+// structFieldVals: the values the fields of the struct value v may hold, when
+// v is (a load of) a local/fresh struct assembled by a composite literal,
+// whole-struct copies and field assignments. ok=false: not such a value.
+// c09Self marks, in structFieldVals, a field that keeps the value the state already has.
+var c09Self = ssa.NewConst(nil, types.Typ[types.UntypedNil])
+
+func structFieldVals(v ssa.Value, depth int) (map[string][]ssa.Value, bool) {
+	if depth > 4 {
+		return nil, false
+	}
+	var lit *ssa.Alloc
+	switch x := v.(type) {
+	case *ssa.Alloc:
+		lit = x
+	case *ssa.UnOp:
+		if x.Op == token.MUL {
+			lit, _ = x.X.(*ssa.Alloc)
+		}
+	case *ssa.Const:
+		return map[string][]ssa.Value{}, true // T{} / nil
+	}
+	if lit == nil {
+		// a copy of an existing struct (the state itself): every field keeps its value
+		if st, ok := deref(v.Type()).Underlying().(*types.Struct); ok && depth > 0 {
+			out := map[string][]ssa.Value{}
+			for i := 0; i < st.NumFields(); i++ {
+				out[st.Field(i).Name()] = []ssa.Value{c09Self}
+			}
+			return out, true
+		}
+		return nil, false
+	}
+	out := map[string][]ssa.Value{}
+	for _, r := range refs(lit) {
+		switch x := r.(type) {
+		case *ssa.Store:
+			if x.Addr == ssa.Value(lit) {
+				base, ok := structFieldVals(x.Val, depth+1)
+				if !ok {
+					return nil, false
+				}
+				for f, vs := range base {
+					out[f] = append(out[f], vs...)
+				}
+			}
+		case *ssa.FieldAddr:
+			for _, rr := range refs(x) {
+				if ls, ok := rr.(*ssa.Store); ok && ls.Addr == ssa.Value(x) {
+					f := fieldIDOfAddr(x).Field
+					out[f] = append(out[f], ls.Val)
+				}
+			}
+		}
+	}
+	return out, true
+}
+
+// stateStores: the state fields instruction in assigns: a plain store to a
+// field, or the assignment of a whole grouped sub-struct (by value or by a
+// fresh pointer), expanded into its fields (fields not mentioned in the
+// composite literal get the zero value).
+func (k *c09) stateStores(in ssa.Instruction) []c09Store {
+	st, ok := in.(*ssa.Store)
+	if !ok {
+		return nil
+	}
+	if f, ok := k.addrField(st.Addr); ok {
+		return []c09Store{{field: f, val: st.Val}}
+	}
+	if fa, ok := st.Addr.(*ssa.FieldAddr); ok {
+		// c.sub = T{...} / c.sub = &T{...}
+		if _, isState := k.stateTypes[fieldIDOfAddr(fa).Type]; !isState {
+			return nil
+		}
+		if a, isAlloc := fa.X.(*ssa.Alloc); isAlloc && !a.Heap {
+			return nil
+		}
+	} else {
+		// *c.sub = T{...}: the whole sub-struct assigned through its pointer
+		if _, isStruct := st.Val.Type().Underlying().(*types.Struct); !isStruct {
+			return nil
+		}
+		if a, isAlloc := st.Addr.(*ssa.Alloc); isAlloc {
+			_ = a
+			return nil
+		}
+	}
+	// the value is a grouped sub-struct of the state
+	sub, isNamed := deref(st.Val.Type()).(*types.Named)
+	if !isNamed {
+		return nil
+	}
+	prefix, isState := k.stateTypes[namedKey(sub)]
+	if !isState || prefix == "" {
+		return nil
+	}
+	sst, _ := sub.Underlying().(*types.Struct)
+	if sst == nil {
+		return nil
+	}
+	vals, ok := structFieldVals(st.Val, 0)
+	var out []c09Store
+	for i := 0; i < sst.NumFields(); i++ {
+		n := sst.Field(i).Name()
+		if ok {
+			// explicit assignments override the copied value
+			var explicit []ssa.Value
+			self := false
+			for _, v := range vals[n] {
+				if v == ssa.Value(c09Self) {
+					self = true
+				} else {
+					explicit = append(explicit, v)
+				}
+			}
+			if self {
+				if len(explicit) == 0 {
+					continue // keeps its value: not a store
+				}
+				vals[n] = explicit
+			}
+		}
+		switch {
+		case !ok:
+			out = append(out, c09Store{field: prefix + n, val: st.Val, multi: true}) // unknown value
+		case len(vals[n]) == 0:
+			out = append(out, c09Store{field: prefix + n, zero: true})
+		case len(vals[n]) == 1:
+			out = append(out, c09Store{field: prefix + n, val: vals[n][0]})
+		default:
+			for _, v := range vals[n] {
+				out = append(out, c09Store{field: prefix + n, val: v, multi: true})
+			}
+		}
+	}
+	return out
 }
 
 // loadField: v is a load of field f of the limiter (through conversions).
@@ -71,7 +311,7 @@ func (k *c09) loadField(v ssa.Value) (string, *ssa.UnOp, bool) {
 			continue
 		case *ssa.UnOp:
 			if x.Op == token.MUL {
-				if f, ok := k.addrField(x.X); ok {
+				if f, ok := k.addrFieldR(x.X); ok {
 					return f, x, true
 				}
 			}
@@ -141,10 +381,10 @@ func (k *c09) pick(role string, cands map[string]bool, hist string, required boo
 		return hist
 	}
 	if len(cands) == 0 {
-		for i := 0; i < k.st.NumFields(); i++ {
-			if k.st.Field(i).Name() == hist {
+		for _, f := range k.flds {
+			if f.name == hist {
 				k.roleNote = append(k.roleNote, role+": not resolved by role, took the historical name "+hist)
-				return hist
+				return f.key
 			}
 		}
 	}
@@ -154,11 +394,9 @@ func (k *c09) pick(role string, cands map[string]bool, hist string, required boo
 	return ""
 }
 
-func (k *c09) fieldType(name string) types.Type {
-	for i := 0; i < k.st.NumFields(); i++ {
-		if k.st.Field(i).Name() == name {
-			return k.st.Field(i).Type()
-		}
+func (k *c09) fieldType(key string) types.Type {
+	if f := k.fld(key); f != nil {
+		return f.typ
 	}
 	return nil
 }
@@ -252,6 +490,7 @@ func c09Resolve(c *Ctx) *c09 {
 	k.T = cands[0]
 	k.tkey = namedKey(k.T)
 	k.st = k.T.Underlying().(*types.Struct)
+	k.collectState()
 	var methods []*ssa.Function
 	for i := 0; i < k.T.NumMethods(); i++ {
 		m := p.SSA.FuncValue(k.T.Method(i))
@@ -271,7 +510,32 @@ func c09Resolve(c *Ctx) *c09 {
 	if k.run == nil || k.add == nil || k.closeFn == nil {
 		undecided("C09: Run/Add/Close of %s do not resolve", k.tkey)
 	}
-	fromMethods := reach(methods)
+	// function values kept in struct fields (assigned in the constructor, called by the methods) run as part of the methods
+	stored := append([]*ssa.Function{}, methods...)
+	for _, f := range pkgFns {
+		allInstrs(f, func(in ssa.Instruction) {
+			st, ok := in.(*ssa.Store)
+			if !ok {
+				return
+			}
+			if _, isField := st.Addr.(*ssa.FieldAddr); !isField {
+				return
+			}
+			v := st.Val
+			if w := c09OnceFuncArg(v); w != nil {
+				v = w
+			}
+			switch x := v.(type) {
+			case *ssa.Function:
+				stored = append(stored, x)
+			case *ssa.MakeClosure:
+				if g, ok := x.Fn.(*ssa.Function); ok {
+					stored = append(stored, g)
+				}
+			}
+		})
+	}
+	fromMethods := reach(stored)
 	k.inFns = map[*ssa.Function]bool{}
 	k.ctorOnly = map[*ssa.Function]bool{}
 	for _, f := range pkgFns {
@@ -305,35 +569,38 @@ func c09Resolve(c *Ctx) *c09 {
 
 func (k *c09) resolveFields() {
 	locks, wgs, timers, flags, chans, ints, durs := map[string]bool{}, map[string]bool{}, map[string]bool{}, map[string]bool{}, map[string]bool{}, map[string]bool{}, map[string]bool{}
-	for i := 0; i < k.st.NumFields(); i++ {
-		f := k.st.Field(i)
-		t := f.Type()
+	for _, f := range k.flds {
+		t := f.typ
 		switch {
 		case c09IsNamed(t, "sync.RWMutex") || c09IsNamed(t, "sync.Mutex"):
-			locks[f.Name()] = true
+			locks[f.key] = true
 		case c09IsNamed(t, "sync.WaitGroup"):
-			wgs[f.Name()] = true
+			wgs[f.key] = true
 		case c09IsNamed(t, "sync/atomic.Bool") || c09IsBoolType(t):
-			flags[f.Name()] = true
+			flags[f.key] = true
 		case c09IsNamed(t, "time.Duration"):
-			durs[f.Name()] = true
+			durs[f.key] = true
 		case c09IsIntKind(t):
-			ints[f.Name()] = true
+			ints[f.key] = true
 		default:
 			if _, ok := t.Underlying().(*types.Chan); ok {
-				chans[f.Name()] = true
+				chans[f.key] = true
 			} else if c09HasMethods(t, "Stop", "Reset", "C") {
-				timers[f.Name()] = true
+				timers[f.key] = true
 			}
 		}
 	}
 	// the lock: the mutex Add takes
 	if len(locks) > 1 {
 		inAdd := map[string]bool{}
-		WalkCalls(k.add, nil, nil, k.follow, false, func(pf *PathFlow, in ssa.Instruction) {
+		WalkCalls(k.flow(), k.add, false, func(pf *PathFlow, in ssa.Instruction) {
 			if ci, ok := in.(ssa.CallInstruction); ok {
-				if id, kind, ok := k.e.lockOp(ci); ok && kind == opLock && strings.HasPrefix(id, k.tkey+".") {
-					inAdd[strings.TrimPrefix(id, k.tkey+".")] = true
+				if id, kind, ok := k.e.lockOp(ci); ok && kind == opLock {
+					for f := range locks {
+						if k.lockKey(f) == id {
+							inAdd[f] = true
+						}
+					}
 				}
 			}
 		})
@@ -342,8 +609,8 @@ func (k *c09) resolveFields() {
 	k.fLock = k.pick("lock (the mutex Add takes)", locks, "lock", true)
 	k.fWG = k.pick("wait group", wgs, "wg", true)
 	k.fTimer = k.pick("window timer (field with Stop/Reset/C)", timers, "timer", true)
-	k.lockID = k.tkey + "." + k.fLock
-	k.wgID = k.tkey + "." + k.fWG
+	k.lockID = k.lockKey(k.fLock)
+	k.wgID = k.lockKey(k.fWG)
 
 	// stores outside the constructor
 	storedOutside := map[string]bool{}
@@ -352,48 +619,50 @@ func (k *c09) resolveFields() {
 			continue
 		}
 		allInstrs(fn, func(in ssa.Instruction) {
-			if st, ok := in.(*ssa.Store); ok {
-				if f, ok := k.addrField(st.Addr); ok {
-					storedOutside[f] = true
-				}
+			for _, s := range k.stateStores(in) {
+				storedOutside[s.field] = true
 			}
 		})
 	}
 	// pending counter: the integer field Add increments
 	pend := map[string]bool{}
-	WalkCalls(k.add, nil, nil, k.follow, false, func(pf *PathFlow, in ssa.Instruction) {
-		if st, ok := in.(*ssa.Store); ok {
-			if f, ok := k.addrField(st.Addr); ok && ints[f] && k.isIncOf(st.Val, f) {
-				pend[f] = true
+	WalkCalls(k.flow(), k.add, false, func(pf *PathFlow, in ssa.Instruction) {
+		for _, s := range k.stateStores(in) {
+			if ints[s.field] && !s.zero && k.isIncOf(s.val, s.field) {
+				pend[s.field] = true
 			}
 		}
 	})
 	k.fPend = k.pick("pending counter (integer field Add increments)", pend, "pendingEvents", true)
 	// token channel: the channel field a goroutine started by Add sends on
 	input := map[string]bool{}
-	WalkCalls(k.add, nil, nil, k.follow, true, func(pf *PathFlow, in ssa.Instruction) {
+	WalkCalls(k.flow(), k.add, true, func(pf *PathFlow, in ssa.Instruction) {
 		for _, ch := range c09SendChans(in) {
-			if f, _, ok := k.loadField(ch); ok && chans[f] {
-				input[f] = true
+			for _, root := range pf.Roots(k.rc, ch) {
+				if f, _, ok := k.loadField(root); ok && chans[f] {
+					input[f] = true
+				}
 			}
 		}
 	})
 	k.fInput = k.pick("token channel (channel field the goroutine started by Add sends on)", input, "inputCh", true)
 	// close channel / closed flag: what Close closes / sets
 	closeCh, closed := map[string]bool{}, map[string]bool{}
-	WalkCalls(k.closeFn, nil, nil, k.follow, false, func(pf *PathFlow, in ssa.Instruction) {
+	WalkCalls(k.flow(), k.closeFn, false, func(pf *PathFlow, in ssa.Instruction) {
 		ci, ok := in.(ssa.CallInstruction)
 		if !ok {
-			if st, ok := in.(*ssa.Store); ok {
-				if f, ok := k.addrField(st.Addr); ok && flags[f] {
-					closed[f] = true
+			for _, s := range k.stateStores(in) {
+				if flags[s.field] {
+					closed[s.field] = true
 				}
 			}
 			return
 		}
 		if builtinName(ci) == "close" && len(ci.Common().Args) == 1 {
-			if f, _, ok := k.loadField(ci.Common().Args[0]); ok && chans[f] {
-				closeCh[f] = true
+			for _, root := range pf.Roots(k.rc, ci.Common().Args[0]) {
+				if f, _, ok := k.loadField(root); ok && chans[f] {
+					closeCh[f] = true
+				}
 			}
 		}
 		if obj := calleeObj(ci); obj != nil && len(ci.Common().Args) > 0 {
@@ -409,7 +678,7 @@ func (k *c09) resolveFields() {
 	k.fClosed = k.pick("closed flag (flag Close sets)", closed, "closed", false)
 	// window flag: the flag that is set both true and false by the run loop
 	setT, setF := map[string]bool{}, map[string]bool{}
-	WalkCalls(k.run, nil, nil, k.follow, false, func(pf *PathFlow, in ssa.Instruction) {
+	WalkCalls(k.flow(), k.run, false, func(pf *PathFlow, in ssa.Instruction) {
 		if f, val, ok := k.flagStore(in); ok {
 			if val {
 				setT[f] = true
@@ -446,28 +715,34 @@ func (k *c09) resolveFields() {
 			maxC[f] = true
 		}
 	}
-	for i := 0; i < k.st.NumFields(); i++ {
-		f := k.st.Field(i).Name()
-		if deps[f]["MaxPendingEvents"] && !storedOutside[f] {
+	for _, fl := range k.flds {
+		f := fl.key
+		// the cap itself is an integer or a pointer to one (a companion "is set" flag is not)
+		if deps[f]["MaxPendingEvents"] && !storedOutside[f] && c09IsIntKind(deref(fl.typ)) {
 			capC[f] = true
 		}
 	}
 	k.fInit = k.pick("initial delay (immutable duration built from OptionsCoalescing.InitialDelay)", initC, "initialDelay", true)
 	k.fMax = k.pick("maximum delay (immutable duration built from OptionsCoalescing.MaxDelay)", maxC, "maxDelay", true)
 	k.fCap = k.pick("pending-events cap (built from OptionsCoalescing.MaxPendingEvents)", capC, "maxPendingEvents", true)
-	// back-off factor: the other integer field with a growth store
+	// back-off factor: the other integer field whose own value, grown, is stored back into it
 	grow := map[string]bool{}
-	for _, fn := range k.fns {
-		if k.ctorOnly[fn] {
-			continue
+	var otherInts []string
+	for f := range ints {
+		if f != k.fPend && storedOutside[f] {
+			otherInts = append(otherInts, f)
 		}
-		allInstrs(fn, func(in ssa.Instruction) {
-			if st, ok := in.(*ssa.Store); ok {
-				if f, ok := k.addrField(st.Addr); ok && ints[f] && f != k.fPend && k.isGrowthOf(st.Val, f) {
-					grow[f] = true
-				}
-			}
-		})
+	}
+	sort.Strings(otherInts)
+	for _, f := range otherInts {
+		k.fBackoff = f
+		if len(k.growthOps()) > 0 {
+			grow[f] = true
+		}
+	}
+	k.fBackoff = ""
+	if len(grow) == 0 && len(otherInts) == 1 {
+		grow[otherInts[0]] = true
 	}
 	k.fBackoff = k.pick("back-off factor (integer field multiplied by the run loop)", grow, "backoffFactor", false)
 }
@@ -524,10 +799,20 @@ func (k *c09) flagStore(in ssa.Instruction) (string, bool, bool) {
 			}
 		}
 	case ssa.CallInstruction:
-		if obj := calleeObj(x); obj != nil && obj.Name() == "Store" && len(x.Common().Args) == 2 && !x.Common().IsInvoke() {
-			if f, ok := k.addrField(x.Common().Args[0]); ok {
-				if v, ok := c09BoolConst(x.Common().Args[1]); ok {
-					return f, v, true
+		if obj := calleeObj(x); obj != nil && !x.Common().IsInvoke() && len(x.Common().Args) >= 2 {
+			// atomic.Bool: Store(v), Swap(v), CompareAndSwap(old, v) all leave v stored (when they store)
+			var nv ssa.Value
+			switch {
+			case (obj.Name() == "Store" || obj.Name() == "Swap") && len(x.Common().Args) == 2:
+				nv = x.Common().Args[1]
+			case obj.Name() == "CompareAndSwap" && len(x.Common().Args) == 3:
+				nv = x.Common().Args[2]
+			}
+			if nv != nil {
+				if f, ok := k.addrField(x.Common().Args[0]); ok {
+					if v, ok := c09BoolConst(nv); ok {
+						return f, v, true
+					}
 				}
 			}
 		}
@@ -589,7 +874,8 @@ func (k *c09) ctorDeps() map[string]map[string]bool {
 					deps(x, acc, depth+1)
 				}
 			case *ssa.Call:
-				if builtinName(y) != "" {
+				// a builtin or library function (min, max, cmp.Or, ...): depends on its arguments
+				if builtinName(y) != "" || (staticCallee(y) != nil && !k.inFns[staticCallee(y)]) {
 					for _, a := range y.Call.Args {
 						deps(a, acc, depth+1)
 					}
@@ -602,18 +888,14 @@ func (k *c09) ctorDeps() map[string]map[string]bool {
 			continue
 		}
 		allInstrs(fn, func(in ssa.Instruction) {
-			st, ok := in.(*ssa.Store)
-			if !ok {
-				return
+			for _, ss := range k.stateStores(in) {
+				if out[ss.field] == nil {
+					out[ss.field] = map[string]bool{}
+				}
+				if !ss.zero {
+					deps(ss.val, out[ss.field], 0)
+				}
 			}
-			f, ok := k.addrField(st.Addr)
-			if !ok {
-				return
-			}
-			if out[f] == nil {
-				out[f] = map[string]bool{}
-			}
-			deps(st.Val, out[f], 0)
 		})
 	}
 	return out
